@@ -474,6 +474,7 @@ package runtime
 //@   modifies all(m)
 //@   exits ContextTerminationError
 //@   exits_ensures old(m.trackTime) && m.status == StatusKilled
+//@   ensures m.nextCpuThreshold <= m.usedResources.Cpu   // the child's first tick consults the clock: a time limit is not checked late because the parent had used more CPU
 //@   ensures old(m.hardLimits.Cpu) != 0 ==> m.hardLimits.Cpu != 0 && m.hardLimits.Cpu <= old(m.hardLimits.Cpu) - old(m.usedResources.Cpu)
 //@   ensures old(m.hardLimits.Memory) != 0 ==> m.hardLimits.Memory != 0 && m.hardLimits.Memory <= old(m.hardLimits.Memory) - old(m.usedResources.Memory)
 //@   ensures old(m.hardLimits.Millis) != 0 ==> m.hardLimits.Millis != 0 && m.hardLimits.Millis <= old(m.hardLimits.Millis) - m.parent.usedResources.Millis
